@@ -369,7 +369,7 @@ CLAUSES = [
                 "nothing may be remembered from earlier tables; non-trivial = "
                 ">= 2 of the tables were merged",
            examples={"quick": 1200, "thorough": 20000},
-           shards={"quick": 4, "thorough": 16}),
+           shards={"quick": 4, "thorough": 16}, isolate=True),
     Clause("front-end", check_chain, strategy=strat_chain,
            rule="minimise_table / minimise_tables over 1-3 chips with every "
                 "method subset and order, int / dict / None targets; " + RULE,
